@@ -12,7 +12,7 @@ from . import common as C
 from . import advcorpus, gen, l2
 
 SIZES = {"quick": dict(npkgs=14, per_pkg=5, repeat=1, repeat_adv=5, fmt_every=4),
-         "thorough": dict(npkgs=120, per_pkg=8, repeat=10, repeat_adv=60, fmt_every=1)}
+         "thorough": dict(npkgs=60, per_pkg=8, repeat=3, repeat_adv=40, fmt_every=1)}
 
 def strip_vendor(p):
     parts = p.split("/vendor/")
